@@ -163,12 +163,24 @@ def phLeaveKey (ph : List (Nat Ã— Fine.Phase)) (a : Nat) (k : Key) : List (Nat Ã
   | some (.leaving mk rm) => AList.set ph a (.leaving (AList.del k mk) rm)
   | _ => ph
 
+/-- the stale reverse-only MONITOR entries the model accounts for (a `demonitor*` whose fetch found no `Arc`
+ran its entry region after a `monitor*` had registered the actor: `C11.conc_stale_origin`) are not a
+cross-index violation: take them out of the snapshot's reverse index before judging it -/
+def discount (st : State) (sg : List (Nat Ã— Key)) (sw : List (Nat Ã— Nat)) : State :=
+  { st with rel := st.rel.map fun p =>
+      (p.1, { p.2 with
+        gmon := p.2.gmon.filter (fun k => !(sg.contains (p.1, k) && !(listenersOf st k).contains p.1)),
+        wmon := p.2.wmon.filter (fun s => !(sw.contains (p.1, s) && !(worldOf st s).contains p.1)) }) }
+
 structure DState where
   st : State := init
   prev : Option State := none     -- previous implementation snapshot
   acc : List Ev := []             -- E-THR: notifications since the last sync line
   removed : List (Nat Ã— (Key Ã— List Nat)) := []   -- E-THR: removal records of the running leave_alls, per exiter
   phases : List (Nat Ã— Fine.Phase) := []  -- E-THR: phase of every exit in flight, from the implementation's own regions
+  fetched : List (Nat Ã— Bool) := []       -- E-THR: per thread, did the `demonitor*` in flight fetch a reverse-index `Arc`?
+  staleG : List (Nat Ã— Key) := []         -- E-THR: stale reverse-only monitor pairs the replayed model has recorded
+  staleW : List (Nat Ã— Nat) := []
   pend : List (Nat Ã— Pending) := []       -- E-THR, model side: per thread, entry done / notify pending
   opend : List (Nat Ã— OPend) := []        -- E-THR, oracle side: the same from the implementation's data
   owedCode : List Ev := []                -- pre-F7 behaviour: group listeners at the change, world at notify
@@ -240,7 +252,8 @@ def step (d : DState) (op impl : String) : DState Ã— StepOut :=
         else if got == showEvs (d.owedCode.filter aliveI) then ["world-recipients-read-at-notify-time"]
         else ["notification-recipients-not-fixed-at-change"]
       ({ d with acc := [], prev := some im.snap, pend := [], opend := [], owedCode := [], owedStrict := [] },
-       { model, oracle := failing im.snap ++ o2 ++ o3, nontrivial := w == ["tend"] && !evs.isEmpty })
+       { model, oracle := failing (discount im.snap d.staleG d.staleW) ++ o2 ++ o3,
+         nontrivial := w == ["tend"] && !evs.isEmpty })
   | "case" :: _ | "thrcase" :: _ =>
     let im := parseImpl? [] impl
     ({ st := init, prev := im.map (Â·.snap) },
@@ -339,6 +352,26 @@ def step (d : DState) (op impl : String) : DState Ã— StepOut :=
             let (st', r) := leaveKey d.st a (s, g)
             some { d with st := st', removed := d.removed ++ r.toList.map (a, Â·), phases := phLeaveKey d.phases a (s, g) }
           | _, _, _ => none
+        | ["moncreate", _, a] =>
+          -- `get_or_create_actor_relations`
+          a.toNat?.map fun a => { d with st := { d.st with rel := relUpdate d.st.rel a id } }
+        | ["demonitor", g, b] =>
+          -- E-THR: the entry region of `demonitor`; without a fetched `Arc` only the forward side is updated
+          match g.toNat?, b.toNat? with
+          | some g, some b =>
+            if (AList.get d.fetched tid) == some false then
+              some { d with st := Conc.demonitorFwdSt d.st g b, staleG := d.staleG ++ [(b, (defaultScope, g))],
+                            fetched := AList.erase d.fetched tid }
+            else some { d with st := demonitor d.st g b, fetched := AList.erase d.fetched tid }
+          | _, _ => none
+        | ["demonitorscope", sc, b] =>
+          match sc.toNat?, b.toNat? with
+          | some sc, some b =>
+            if (AList.get d.fetched tid) == some false then
+              some { d with st := Conc.demonitorScopeFwdSt d.st sc b, staleW := d.staleW ++ [(b, sc)],
+                            fetched := AList.erase d.fetched tid }
+            else some { d with st := demonitorScope d.st sc b, fetched := AList.erase d.fetched tid }
+          | _, _ => none
         | ["monitor", g, a] =>
           -- E-THR: the entry + relations-lock region of `monitor` alone (the re-check is its own line)
           match g.toNat?, a.toNat? with
@@ -365,7 +398,15 @@ def step (d : DState) (op impl : String) : DState Ã— StepOut :=
             { d with st := st', acc := d.acc ++ evs, removed := d.removed.filter (Â·.1 != a),
                      phases := AList.set d.phases a .done }
         | _ => none
+      let fetchStep := fun (b : String) =>
+        -- `get_actor_relations` of a `demonitor*`: does the model's reverse index have an entry for the actor?
+        let b := b.toNat?.getD 0
+        let had := (AList.get d.st.rel b).isSome
+        let model := if d.st.dead.contains b then "had=*" else s!"had={if had then 1 else 0}"
+        (({ d with fetched := AList.set d.fetched tid had } : DState), ({ model, nontrivial := !had } : StepOut))
       match w' with
+      | ["demfetch", _, b] => fetchStep b
+      | ["demsfetch", _, b] => fetchStep b
       | ["win"] =>
         -- the window: all threads parked outside the locks in the MIDDLE of the race. The implementation's
         -- four indexes must equal the model's (correspondence) and, on the implementation's own data, satisfy
@@ -375,7 +416,7 @@ def step (d : DState) (op impl : String) : DState Ã— StepOut :=
         match parseImpl? d.st.remote impl with
         | none => (d, { model, oracle := ["unparsable"] })
         | some im =>
-          let o1 := Conc.windowFailing im.snap d.phases
+          let o1 := Conc.windowFailing (discount im.snap d.staleG d.staleW) d.phases
           let o2 := if im.queries == showQueries im.snap then [] else ["query-disagrees-with-membership-midrace"]
           ({ d with prev := some im.snap }, { model, oracle := o1 ++ o2, nontrivial := !d.phases.isEmpty })
       | ["readded", _] =>
